@@ -366,6 +366,16 @@ def replay_bin(res, binname, cases, cfgs, expect_ops=None, env_extra=None, tag=N
                        "mismatches": [{"prop": sanitizer_prop, "cfg": cfg, "ty": "?", "op": "AddressSanitizer report", "what": p.stderr[-1500:],
                                        "case": {"fam": "asan", "report": rp}}]}, open(out, "w"))
             return cfg, out
+        if p.returncode in (-11, -7, -4):
+            # SIGSEGV / SIGBUS / SIGILL inside the library under test (the harness is safe Rust): a violation, not a tool error
+            keep = os.path.join(WORK, "replays", f"{res.prop}-crash-{tag}-{cfg}.cases")
+            os.makedirs(os.path.dirname(keep), exist_ok=True)
+            shutil.copyfile(cases, keep)
+            json.dump({"cfg": cfg, "cases": 0, "evals": 0, "mismatch_count": 1, "spec_error_count": 0, "spec_errors": [],
+                       "samples": [], "per_op": {}, "nontrivial": 0,
+                       "mismatches": [{"prop": sanitizer_prop or res.prop, "cfg": cfg, "ty": "?", "op": f"process killed by signal {-p.returncode} while replaying {tag}",
+                                       "what": (p.stderr or "")[-800:], "case": {"fam": "crash", "bin": binname, "cases": keep, "env": env_extra or {}}}]}, open(out, "w"))
+            return cfg, out
         if p.returncode != 0 or not os.path.exists(out):
             raise ToolError(f"{binname} replay crashed in {cfg}: rc={p.returncode}\n{p.stdout[-1500:]}\n{p.stderr[-3000:]}")
         log("  " + p.stdout.strip().splitlines()[-1])
@@ -375,7 +385,7 @@ def replay_bin(res, binname, cases, cfgs, expect_ops=None, env_extra=None, tag=N
         outs = list(ex.map(one, cfgs))
     for cfg, out in outs:
         r = res.add_report(out, cfg)
-        if expect_ops and not (sanitizer_prop and r["cases"] == 0 and r["mismatch_count"]):
+        if expect_ops and not (r["cases"] == 0 and r["mismatch_count"]):
             missing = [k for k in expect_ops if r["per_op"].get(k, 0) == 0]
             if missing:
                 raise ToolError(f"vacuity guard: operations never exercised in {cfg}: {missing[:20]}")
@@ -487,7 +497,7 @@ def validate_trace(res, module, trace, label, prop=None, env_name="TRACE", cfg=N
             raise
 
 
-def record_and_validate(res, mode, cfgs, draws, module="Trace_Lanes", chunks=4, prop=None, expect_kinds=(), ops=None):
+def record_and_validate(res, mode, cfgs, draws, module="Trace_Lanes", chunks=4, prop=None, expect_kinds=(), ops=None, tys=None):
     """Code -> spec on arbitrary operands: `rec <mode>` executes the real library on random bit patterns in each
     build configuration and logs every call; TLC (module Trace_Lanes: IeeeW / IntLane with arbitrary-precision
     integers) consumes the log.  The log of each build is split into `chunks` files validated concurrently."""
@@ -498,7 +508,7 @@ def record_and_validate(res, mode, cfgs, draws, module="Trace_Lanes", chunks=4, 
     jobs = []
     for cfg in cfgs:
         tr = os.path.join(wd, f"rec.{mode}.{cfg}.ndjson")
-        p = run_bin(cfg, "rec", [mode, tr, str(res.seed), str(draws)], env_extra={"HX_OPS": ",".join(ops)} if ops else None)
+        p = run_bin(cfg, "rec", [mode, tr, str(res.seed), str(draws)], env_extra=dict(({"HX_OPS": ",".join(ops)} if ops else {}), **({"HX_TYS": ",".join(tys)} if tys else {})))
         if p.returncode != 0:
             raise ToolError(f"rec {mode} failed in {cfg}: {p.stderr[-1500:]}")
         summ = json.load(open(tr + ".summary.json"))
@@ -522,7 +532,7 @@ def record_and_validate(res, mode, cfgs, draws, module="Trace_Lanes", chunks=4, 
     def one(job):
         cfg, k, f = job
         r = Result(res.prop, res.tier, res.seed)
-        validate_trace(r, module, f, f"{mode}.{cfg}.{k}", prop=prop, cfg=cfg, case_extra={"mode": mode, "seed": res.seed, "draws": draws, "ops": ops})
+        validate_trace(r, module, f, f"{mode}.{cfg}.{k}", prop=prop, cfg=cfg, case_extra={"mode": mode, "seed": res.seed, "draws": draws, "ops": ops, "tys": tys})
         return r
     with ThreadPoolExecutor(max_workers=8) as ex:
         sub = list(ex.map(one, jobs))
@@ -552,7 +562,7 @@ def replay_event(res, path):
     if case.get("mode") in ("poly", "mat", "rel"):
         # the recorder is deterministic in (mode, seed, draws): record again and keep the event with the same number
         full = os.path.join(wd, f"replay.full.{cfg}.ndjson")
-        p = run_bin(cfg, "rec", [case["mode"], full, str(case["seed"]), str(case["draws"])], env_extra={"HX_OPS": ",".join(case["ops"])} if case.get("ops") else None)
+        p = run_bin(cfg, "rec", [case["mode"], full, str(case["seed"]), str(case["draws"])], env_extra=dict(({"HX_OPS": ",".join(case["ops"])} if case.get("ops") else {}), **({"HX_TYS": ",".join(case["tys"])} if case.get("tys") else {})))
         want = case["event"]
         line = next((l for l in open(full) if json.loads(l).get("i") == want["i"]), None)
         if p.returncode != 0 or line is None:
@@ -576,7 +586,19 @@ def replay_event(res, path):
 
 
 def replay_dispatch(res, path, binname, only=None, env_keys=("ty",)):
-    fam = json.load(open(path)).get("case", {}).get("fam")
+    mm = json.load(open(path))
+    fam = mm.get("case", {}).get("fam")
     if fam == "event":
         return replay_event(res, path)
+    if fam == "crash":
+        case, cfg = mm["case"], mm.get("cfg", "sse2")
+        build_all([cfg], [case["bin"]])
+        out = os.path.join(WORK, res.prop, f"replay.{cfg}.json")
+        p = run_bin(cfg, case["bin"], [case["cases"], out], env_extra=case.get("env") or None)
+        if p.returncode in (-11, -7, -4):
+            print(f"process killed by signal {-p.returncode}")
+            print(f"VIOLATION property={res.prop} replay={path}")
+            return EXIT_VIOLATION
+        print("replay: no crash on the current tree")
+        return EXIT_OK
     return generic_replay(res, path, binname, only=only, env_keys=env_keys)
